@@ -51,15 +51,19 @@ def check_c10(case, ctx):
             if d3 > d + FL:
                 raise Violation("two-team-gap-monotone", f"{kind}: widening the gap ({tot[0]!r} vs {tot[1]!r}; player {which},{j} {sign * case['delta']:+}) raised predict_draw {d!r} -> {d3!r}")
             ctx.label("gap-widened")
-    # equalise all team totals to the first team's (sigmas unchanged)
+    # equalise all team totals (sigmas unchanged): to the median total, the shift spread over the members
     t4 = [[list(q) for q in t] for t in teams]
     ok = True
-    for i in range(1, n):
-        shift = tot[0] - tot[i]
-        j = case["player"] % len(t4[i])
-        t4[i][j][0] += shift
-        if abs(t4[i][j][0]) > 20 * beta:
-            ok = False
+    target = sorted(tot)[n // 2]
+    for i in range(n):
+        shift = (target - tot[i]) / len(t4[i])
+        for q in t4[i]:
+            q[0] += shift
+            if abs(q[0]) > 20 * beta:
+                ok = False
+        # remove the rounding residue on one member so that the totals agree to an ulp
+        resid = target - math.fsum(q[0] for q in t4[i])
+        t4[i][case["player"] % len(t4[i])][0] += resid
     if ok:
         d4 = pd(cfg, t4, ctx)
         if d4 < d - FL:
